@@ -126,6 +126,9 @@ TrLoopBegin ==
                     IF OptS(sc) = -1 /\ ~IsTest(sc) THEN "C19:tuning_does_not_start_at_one"
                     ELSE "C03:initial_mode_or_size")
           \cup Flag(R.rem # s0.rem, "C03:initial_remaining_samples")
+          \* while the sample size is being tuned no sample counts against sample_count (C19: the
+          \* round that first passes the threshold is the first recorded one)
+          \cup Flag(R.rem # s0.rem /\ OptS(sc) = -1 /\ ~IsTest(sc), "C19:tuning_rounds_counted_against_sample_count")
           \cup Flag(R.min # OptMin(sc) \/ R.max # OptMax(sc) \/ R.skip # OptSkip(sc),
                     "C04:time_options_not_as_configured")
   /\ phase' = "running" /\ tsStart' = <<>> /\ tsEnd' = <<>> /\ cnt' = <<>> /\ snap' = <<>>
@@ -257,6 +260,10 @@ TrBenchReturn ==
          \cup Flag(~p.test /\ Continue(p, st),
                    IF Lt(st.elapsed, p.min) /\ st.rem = 0 THEN "C04:stopped_before_min_time"
                    ELSE "C03:stopped_before_sample_count")
+         \* C19: the size doubles every round UNTIL a sample outlasts the threshold; only the
+         \* time budget may end a run that is still tuning
+         \cup Flag(~p.test /\ st.mode = "tune" /\ Lt(st.elapsed, p.max),
+                   "C19:run_ended_while_still_tuning_within_the_time_budget")
          \* declaratively: s*ceil(n/T) calls on each of the T threads
          \cup Flag(PlainCounted /\ ~AllCalls(p.sOpt * CeilDiv(p.n, p.T)), "C03:calls_per_thread")
          \cup Flag(PlainCounted /\ st.nsamples # p.T * CeilDiv(p.n, p.T), "C03:recorded_samples_total")
